@@ -256,6 +256,11 @@ bool FilePersister::put(const unsigned seqnum, const f8String& what)
 		glout_error << "Error: seqnum " << seqnum << " already persisted in: " << _dbIname;
 		return false;
 	}
+	if (what.size() > MaxMsgLen)	// get() reads a record into a buffer of MaxMsgLen bytes
+	{
+		glout_error << "Error: record for seqnum " << seqnum << " is too long (" << what.size() << ") for: " << _dbFname;
+		return false;
+	}
 	if (lseek(_iod, 0, SEEK_END) < 0)
 	{
 		glout_error << "Error: could not seek to index end for seqnum persitence: " << _dbIname;
